@@ -35,7 +35,7 @@ fn ty(name: &str) -> ValueType {
 }
 
 pub const NUM_TEXTS: &[&str] = &["1", "-5", "+7", "1.5", "1e3", "inf", "nan", "9223372036854775807", "9223372036854775808", "x1", "", " 1", "true", "false", "TRUE",
-    "2021-03-04 05:06:07", "2021-02-30 00:00:00", "1970-01-01 00:00:00", "01:02:03", "-1:00:30", "1:2", "a:b:c", "999999999999:0:0"];
+    "2021-03-04 05:06:07", "2021-02-30 00:00:00", "1970-01-01 00:00:00", "2016-12-31 23:59:60", "2021-03-04 05:06:60", "2021-03-04 05:60:00", "01:02:03", "-1:00:30", "1:2", "a:b:c", "999999999999:0:0"];
 // regex patterns: anchors, classes, groups, alternation, counted repetitions (also malformed ones), every single meta
 // character on its own, and patterns that are plain substrings of the texts in the pool
 pub const PATTERNS: &[&str] = &["^a", "b$", "[0-9]+", "(", "é", ".*", "a|b", "\\d{2}",
@@ -71,7 +71,7 @@ fn literal_of(rng: &mut Rng, t: &ValueType) -> ExpressionTree {
     match t {
         ValueType::Timestamp | ValueType::Interval => {
             // no literal syntax: go through a cast of a text literal
-            let s = if *t == ValueType::Timestamp { *rng.pick(&["2021-03-04 05:06:07", "1970-01-01 00:00:00", "2000-02-29 23:59:59"]) } else { *rng.pick(&["01:02:03", "0:0:1", "-1:00:30", "100:00:00"]) };
+            let s = if *t == ValueType::Timestamp { *rng.pick(&["2021-03-04 05:06:07", "1970-01-01 00:00:00", "2000-02-29 23:59:59", "2016-12-31 23:59:60", "2015-06-30 23:59:60"]) } else { *rng.pick(&["01:02:03", "0:0:1", "-1:00:30", "100:00:00"]) };
             ExpressionTree::TypeConversion { operand: bx(lit(Value::String(s.to_owned()))), convert_to_type: t.clone() }
         }
         ValueType::Array(e) => {
@@ -200,6 +200,18 @@ pub fn gen_expr(rng: &mut Rng, depth: usize, t: &ValueType, chaos: u64) -> Expre
             4 => ExpressionTree::ArrayElementAccess { array: bx(gen_expr(rng, d, &ValueType::Array(Box::new(text.clone())), chaos)), index: bx(lit(Value::Int(rng.range(0, 3)))) },
             _ => gen_case(rng, d, &text, chaos),
         },
+        ValueType::Timestamp if rng.chance(1, 7) => {
+            // a leap second (`:60`) and the steps that leave it or stay inside it
+            let leap = match rng.below(3) {
+                0 => ExpressionTree::TypeConversion { operand: bx(lit(Value::String((*rng.pick(&["2016-12-31 23:59:60", "2015-06-30 23:59:60", "2021-03-04 05:06:60"])).to_owned()))), convert_to_type: tst.clone() },
+                1 => call(Function::MakeTimestamp, [2016i64, 12, 31, 23, 59, 59, *rng.pick(&[1_000_000i64, 1_500_000, 1_999_999]), 0].iter().map(|v| lit(Value::Int(*v))).collect()),
+                _ => lit(gen_leap_timestamp(rng)),
+            };
+            if rng.chance(1, 3) { leap } else {
+                let step = lit(Value::Interval(chrono::Duration::nanoseconds(*rng.pick(&[0i64, 1, -1, 499_999_999, 500_000_000, -500_000_000, -500_000_001, 1_000_000_000, -1_000_000_000, 1_500_000_000, -1_500_000_000, 86_400_000_000_000, -86_400_000_000_000]))));
+                if rng.chance(1, 2) { ExpressionTree::Arithmetic { operator: ArithmeticOperator::Add, left: bx(leap), right: bx(step) } } else { ExpressionTree::Arithmetic { operator: ArithmeticOperator::Add, left: bx(step), right: bx(leap) } }
+            }
+        }
         ValueType::Timestamp => match rng.below(6) {
             0 => ExpressionTree::Arithmetic { operator: ArithmeticOperator::Add, left: bx(gen_expr(rng, d, &tst, chaos)), right: bx(gen_expr(rng, d, &ivt, chaos)) },
             1 => ExpressionTree::Arithmetic { operator: ArithmeticOperator::Add, left: bx(gen_expr(rng, d, &ivt, chaos)), right: bx(gen_expr(rng, d, &tst, chaos)) },
@@ -337,7 +349,7 @@ fn spec_root(e: &ExpressionTree, ev: &dyn Fn(&ExpressionTree) -> Ev) -> (Expect,
         ExpressionTree::Arithmetic { operator, left, right } => {
             let (l, r) = match (ev(left), ev(right)) { (Ev::Ok(l), Ev::Ok(r)) => (l, r), (Ev::Panic(_), _) | (_, Ev::Panic(_)) => return (Unspecified, ""), _ => return (Error, "operand-error") };
             match (&l, &r) {
-                (sqlgrep::model::Value::Timestamp(_), _) | (_, sqlgrep::model::Value::Timestamp(_)) | (sqlgrep::model::Value::Interval(_), _) | (_, sqlgrep::model::Value::Interval(_)) => (Unspecified, ""),
+                (sqlgrep::model::Value::Timestamp(_), _) | (_, sqlgrep::model::Value::Timestamp(_)) | (sqlgrep::model::Value::Interval(_), _) | (_, sqlgrep::model::Value::Interval(_)) => crate::c03func::spec_time_arith(operator, &l, &r),
                 (sqlgrep::model::Value::Null, _) | (_, sqlgrep::model::Value::Null) => (Value(sqlgrep::model::Value::Null), "arith-null"),
                 (sqlgrep::model::Value::Int(x), sqlgrep::model::Value::Int(y)) => {
                     let (x, y) = (*x as i128, *y as i128);
